@@ -470,6 +470,11 @@ def make_func(sched, script, tag, run_timeout_v=None, results=None):
                     raise
                 except BaseException as e:
                     sched.log(('step-exc', tag, k, type(e).__name__))
+                    if results is not None and e is results.get('own_exc_' + tag + '>inner'):
+                        # the inner function's own non-Exception failure (re-raised by the inner run_timeout) is not caught
+                        # by this function: it is now THIS function's own failure
+                        results['own_exc_' + tag] = e
+                        sched.log(('func-raise', tag, 'inner:' + type(e).__name__))
                     raise
             end = script['end']
             if end == 'ret':
